@@ -306,9 +306,12 @@ class FaultOracle(Oracle):
             "expected": exp["raise"],
             "fired": dict(fired),
         }
-        if seam.unexpected_calls:
-            raise adapter.HarnessError("matrix routine called outside the modelled refresh order")
         # -- raise / not raise ------------------------------------------------------------------------------------------
+        if seam.unexpected_calls and not (exp["raise"] is not None and exp["raise"]["why"] == "nonfinite_factor"):
+            # (the model stops at a block with a non-finite factor matrix; an implementation that reaches the routine and
+            # rejects its non-finite result, or does not reject at all, is judged by the raise / no-raise clauses below.
+            # Every other unmodelled call is a harness problem)
+            raise adapter.HarnessError("matrix routine called outside the modelled refresh order")
         if exp["raise"] is None and exc is not None:
             gi = next(iter(exp["refresh_groups"]), 0)
             tag = "raised_too_early" if "tolerance" in str(exc) else "unexpected_exception"
@@ -465,7 +468,7 @@ def block_layout(trace: dict) -> list[list[tuple[int, int]]]:
 def plan_faults(rng: random.Random, trace: dict) -> None:
     layout = block_layout(trace)
     N = trace["config"]["preconditioner"]["tolerated_failures"]
-    mode = rng.choice(["persistent", "persistent", "intermittent", "burst", "exact", "nonfinite", "lowprec", "nonfinite_grad", "mixed"])
+    mode = rng.choice(["persistent", "persistent", "intermittent", "burst", "exact", "nonfinite", "lowprec", "nonfinite_grad", "mixed", "combo"])
     trace["fault_mode"] = mode
     gi = rng.randrange(len(layout))
     if not layout[gi]:
@@ -493,6 +496,14 @@ def plan_faults(rng: random.Random, trace: dict) -> None:
         elif mode == "nonfinite":
             if n_i >= burst_start and nf:
                 faults = [{"group": gi, "block": target, "factor": rng.randrange(nf), "kind": rng.choice(["nan", "inf", "huge"])}]
+        elif mode == "combo":
+            # several outcomes inside one block and one refresh: a throwing factor next to a non-finite result, in both orders
+            if n_i >= burst_start and nf >= 2:
+                ks = rng.sample(range(nf), 2)
+                faults = [
+                    {"group": gi, "block": target, "factor": ks[0], "kind": "exception"},
+                    {"group": gi, "block": target, "factor": ks[1], "kind": rng.choice(["nan", "inf", "huge"])},
+                ]
         elif mode == "lowprec":
             if nf and rng.random() < 0.7:
                 faults = [{"group": gi, "block": target, "factor": k, "kind": "lowprec"} for k in range(nf)]
@@ -504,6 +515,8 @@ def plan_faults(rng: random.Random, trace: dict) -> None:
                         faults.append({"group": gi, "block": bi, "factor": k, "kind": "exception"})
                     elif r < 0.3:
                         faults.append({"group": gi, "block": bi, "factor": k, "kind": "lowprec"})
+                    elif r < 0.34:
+                        faults.append({"group": gi, "block": bi, "factor": k, "kind": rng.choice(["nan", "inf", "huge"])})
         ev["faults"] = faults
     if mode in ("burst", "exact"):
         trace["burst_len"] = burst_len
@@ -512,7 +525,7 @@ def plan_faults(rng: random.Random, trace: dict) -> None:
         ev = trace["events"][si]
         pi = layout[gi][target][0]
         if ev["g"][pi] is not None:
-            ev["g"][pi] = [ev["g"][pi][0], rng.choice(["inf", "nan"]), 1.0]
+            ev["g"][pi] = [ev["g"][pi][0], rng.choice(["inf", "nan", "inf_last", "nan_last"]), 1.0]
 
 
 class BurstLimiter(Oracle):
